@@ -19,6 +19,9 @@ pub use nth_child::{
 pub use range::SerializableRange as HookRange;
 #[cfg(feature = "verif-hooks")]
 #[doc(hidden)]
+pub use relational_rule::verif_hooks as relational_hooks;
+#[cfg(feature = "verif-hooks")]
+#[doc(hidden)]
 pub use stop_by::SerializableStopBy;
 
 use crate::maybe::Maybe;
